@@ -1,0 +1,5 @@
+//go:build !verif
+
+package driver
+
+func verifPause(string) {}
